@@ -2,13 +2,22 @@ _C16_MAIN = "server"
 
 PROPS["C16"] = prop(
     "exploration",
-    "rapid-generated HTTP requests (httptest against the real largeFileReceive / largeFileServe and the fs media handler on a scratch directory), "
+    "rapid-generated HTTP requests (httptest against the real largeFileReceive / largeFileServe and the fs media handler on a scratch directory, in a third of the gate cases behind a redirecting handler), "
     "generated uploads and hostile urls, and generated histories (uploads, publishes with attachment lists, avatar changes, deletions, collection runs on a virtual clock) "
     "against reference models: request gate (which key / credential a request carries, by documented placement order), recorded type and active-content rule, "
-    "url reading, and a link table (holder -> listed files)",
+    "url reading, and a link table (holder -> listed files). "
+    "The gate unit draws per case which media handler is configured: fs, or the harness handler 'vredir' (registered with store.RegisterMediaHandler; delegates to the real fs "
+    "handler but, like the s3 handler, answers downloads from Headers() with 307 + Location of a pre-signed url): a request without a valid key or valid credentials must be refused "
+    "(401/403/400) and never be answered with a redirect or any Location, an authorised GET/HEAD of an upload gets the 307 with that upload's location. "
+    "The histories also hold {set desc} requests which change only the requester's private note yet carry extra.attachments (by the group's owner, by another subscriber who is "
+    "subscribed first, on a P2P topic and on 'me'): the model links nothing and unlinks nothing for them. "
+    "The histories also hold collection runs whose store transaction fails at commit (verifmem Plan{FailMethod: FileDeleteUnused, AtCommit}: the adapter returns the selected "
+    "locations together with the error and keeps the records), as an operation and, in half of the histories, right before the closing run: a failed run removes nothing (every "
+    "record, the bytes and the download of every upload are still there) and store.Files.DeleteUnused reports the error",
     "gate unit: a case is 2-7 requests against one store; non-trivial = at least one request accepted (upload stored or download served) and at least one refused in the same case; "
     "download unit: 1-4 uploads (over HTTP, failed midway, in flight) and 1-10 odd urls; non-trivial = at least one completed upload served byte-exact and at least one request "
-    "refused (odd url, failed or in-flight upload); links unit: a history of 4-24 operations followed by a closing collection run; non-trivial = at some collection run at least one "
+    "refused (odd url, failed or in-flight upload); links unit: a history of 4-24 operations followed by a closing collection run (in half of the histories preceded by a run "
+    "failing at commit); non-trivial = at some collection run at least one "
     "upload older than the grace period was kept because a living message / topic / user lists it and at least one unlisted upload was collected; "
     "distinct = FNV-64 of the case",
     "The real HTTP handlers, getAPIKey / getHttpAuth / authHttpRequest, checkAPIKey, the token and basic authenticators, the fs media handler, store.Files / store.Messages.Save and "
@@ -16,7 +25,8 @@ PROPS["C16"] = prop(
     "largeFileRunGarbageCollection's loop body on the bubble's clock and, in a quarter of the histories, the loop itself. Every answer, the store's file table, the upload directory "
     "and the download of every upload are compared with the models after each request / collection run. Sampled, not exhaustive.",
     "Trusts the reference models in harness/c16, Go's net/http (multipart parsing, MaxBytesReader, ServeContent, DetectContentType — the reference for the recorded type calls "
-    "DetectContentType too), testing/synctest's clock and the verifmem adapter (link table and foreign keys written from the MySQL adapter's SQL). The S3 handler and the SQL "
+    "DetectContentType too), testing/synctest's clock and the verifmem adapter (link table and foreign keys written from the MySQL adapter's SQL; its commit failure of "
+    "FileDeleteUnused mimics the SQL adapters' `return locations, tx.Commit()`). The S3 handler (only its redirecting behaviour is imitated by 'vredir') and the SQL "
     "adapters' file methods are not executed. Handlers are called directly (no ServeMux, no gorilla CompressHandler); request targets the HTTP server would reject are skipped.",
     "5/C16", "files-http+world",
     [Unit("TestC16Gate", _C16_MAIN, quick=3000, thorough=37500, shards_quick=4, shards_thorough=16),
@@ -39,6 +49,11 @@ PROPS["C16"] = prop(
      "directories and urls naming no upload must not protect anything; for avatars the first entry naming an upload is the avatar",
      "{del msg hard} by a user without the D permission (P2P participants) is silently a per-user deletion: the message and its links stay",
      "soft-deleted topics: whether their files stay is not specified (either accepted); the boundary instant updatedat == cut-off is not judged",
+     "a {set desc} which changes only the requester's private note is no avatar update: its attachment list neither links nor unlinks anything, whoever sends it",
+     "a collection run whose store call fails removes nothing and reports the error; failing runs are issued by the harness directly (store.Files.DeleteUnused), not through the "
+     "server's loop, which only logs the error",
+     "with a handler that redirects downloads the location handed out is treated like the bytes: it may appear only in the answer to an authorised request; HEAD of a url naming "
+     "no upload is then 404 (the fs handler answers HEAD 200 before looking at the url)",
      "server's own collection loop (period randomised 0.75-1.25x): only windows with no other activity are judged, removals must be of unlisted uploads older than the grace period at "
      "the window's end, and unlisted uploads older than grace + 1.25 periods must be gone (block size 0); a run that fires inside an operation cuts the case short"],
 )
